@@ -57,7 +57,7 @@ class SynapseSpec:
                     yield {"dt": dt, "delay": dk * dt, "batchsz": B, "inplace": False}
 
     def setters(self, cfg):
-        for v in (1.0, 0.5):
+        for v in (1.0, 0.5, 0.75):  # 0.75: delays that are not whole multiples of the step (slot count = ceil)
             yield ("dt", v)
         for v in (0.0, 1.0, 2.0):
             yield ("delay", v)
@@ -149,7 +149,7 @@ class ConnectionSpec:
                     yield {"dt": dt, "delay": dk * dt, "batchsz": B, "synapse": "delta"}
 
     def setters(self, cfg):
-        for v in (1.0, 0.5):
+        for v in (1.0, 0.5, 0.75):
             yield ("dt", v)
         for v in (1, 2):
             yield ("batchsz", v)
@@ -201,8 +201,10 @@ class ReducerSpec:
             for dk in (1, 2, 3):
                 yield {"dt": dt, "duration": dk * dt, "inplace": False}
 
+    fresh_per_history = True
+
     def setters(self, cfg):
-        for v in (1.0, 0.5):
+        for v in (1.0, 0.5, 0.75):
             yield ("dt", v)
         for v in (1.0, 2.0, 3.0):
             yield ("duration", v)
@@ -229,12 +231,16 @@ class ReducerSpec:
         return {"dt": c.dt, "duration": c.duration, "inplace": c.inplace}
 
     def behaviour(self, c, hist, cfg):
-        c.clear()
+        # the configured reducer is re-used across histories with a shape-keeping clear in between, and compared each time
+        # with a reducer constructed for that history (fresh_per_history): after clear() it must behave like a new one
         outs = []
+        pk = c.peek()
+        outs.append(torch.tensor(float("nan")) if pk is None else pk.clone())
         for letter in hist:
             c(torch.tensor([float(v) for v in letter]))
             outs.append(c.peek().clone())
             outs.append(c.dump().clone())
+        c.clear(keepshape=True)
         return outs
 
 
@@ -310,6 +316,8 @@ def shard(spec, depth, T, only_cfg=None):
                     continue
                 for h in hist:
                     try:
+                        if getattr(spec, "fresh_per_history", False):
+                            fresh = spec.make(dict(cfg))
                         oa = spec.behaviour(comp, h, cfg)
                         ob = spec.behaviour(fresh, h, cfg)
                     except Exception as ex:
